@@ -909,7 +909,7 @@ def smt_expr_to_str(  # noqa: C901
     if z3.is_app(f):
         kind = f.decl().kind()
 
-        if kind == z3.Z3_OP_RE_LOOP:
+        if kind == z3.Z3_OP_RE_LOOP and f.params():
             op = f"(_ re.loop {f.params()[0]} {f.params()[1]})"
         elif kind == z3.Z3_OP_RE_POWER:
             op = f"(_ re.^ {f.params()[0]})"
